@@ -17,6 +17,7 @@ from __future__ import annotations
 
 import ast
 import os
+import re
 
 from .pysrc import LASTGOOD, Target, Tr, Unsupported, find_func
 
@@ -73,6 +74,10 @@ class Tr4(Tr):
             nd = self.norm(d)
             if nd in t.tmpl:
                 return self.fmt(t.tmpl[nd], d)
+        if isinstance(n, ast.Constant) and isinstance(n.value, float) and n.value != int(n.value):
+            from fractions import Fraction
+            q = Fraction(n.value)                      # the exact value of the float literal
+            return f"(({q.numerator} : Rat) / {q.denominator})"
         if isinstance(n, ast.Constant) and isinstance(n.value, str):
             return '"' + n.value.replace('\\', '\\\\').replace('"', '\\"') + '"'
         if isinstance(n, ast.BinOp) and isinstance(n.op, ast.Add):
@@ -155,7 +160,9 @@ class Tr4(Tr):
             args = [slots[p] for p in order]
         if nd in t.calls and "{" in t.calls[nd][0]:
             spec = t.calls[nd]
-            txt = self.fmt(spec[0], d, *([self.e(a) for a in args] + ["none"] * 3))      # an omitted optional argument is None
+            used = {int(k) for k in re.findall(r"\{(\d+)\}", spec[0])}          # only the arguments the template mentions
+            vals = [self.e(a) if i in used else "_" for i, a in enumerate(args)]
+            txt = self.fmt(spec[0], d, *(vals + ["none"] * 3))      # an omitted optional argument is None
             if spec[1]:
                 self.uses_bind = True
                 return f"(← {txt})"
@@ -468,6 +475,34 @@ def targets():
                   "ShapeGroup": ("(CR.Rigid.Shape.group {0})", False)},
            kwnames={"ShapeGroup": ["shapes"]}, accs={"new_shapes": "CR.Rigid.Shape"}, monadic=True,
            doc="`s.rotate_translate_local` on a member is the model's dispatch Place.place (its branches are the ties of this file)"),
+        T4("occupancy_shape_from_state_exact", SH, "occupancy_shape_from_state", None,
+           [(None, "τ : Rat"), (None, "cosf sinf : Rat → Rat"), ("shape", "shape : CR.Rigid.Shape"), (None, "pos : CR.Rigid.Pt"),
+            (None, "ori : Rat")], "CR.Rigid.Shape",
+           tmpl={"state.is_uncertain_position": "false", "state.is_uncertain_orientation": "false", "state.position": "pos",
+                 "state.orientation": "ori"},
+           dyn_isinstance={("shape", "ShapeGroup"): "(CR.PyC04.isGroup shape)"},
+           calls={"shape.rotate_translate_local": ("CR.Place.placeChk (cosf {1}) (sinf {1}) {1} τ {0} shape", True)}, monadic=True,
+           doc="exact state (position a point, orientation a number): the uncertain branches are statically dead; "
+               "`shape.rotate_translate_local` is the dispatch placeChk whose four branches are the ties above"),
+        T4("occupancy_shape_from_state_uncertain", SH, "occupancy_shape_from_state", None,
+           [(None, "cosf sinf arctanf : Rat → Rat"), (None, "lv wv : Rat"), (None, "sc : CR.Rigid.Pt"), (None, "olo ohi : Rat"),
+            (None, "ls ws : Rat"), (None, "pc : CR.Rigid.Pt")], "CR.Rigid.Shape",
+           types={"shape": "Rectangle", "state.position": "Rectangle"}, points=["center", "sc"],
+           tmpl={"state.is_uncertain_position": "true", "state.is_uncertain_orientation": "true",
+                 "state.orientation.start": "olo", "state.orientation.length": "(ohi - olo)", "state.position.center": "pc",
+                 "shape.center": "sc"},
+           dyn_isinstance={("shape", "ShapeGroup"): "false", ("shape", "Rectangle"): "true", ("shape", "Polygon"): "false",
+                           ("shape", "Circle"): "false", ("state.position", "Rectangle"): "true",
+                           ("state.position", "Polygon"): "false", ("state.position", "Circle"): "false"},
+           calls={"_centered_extent": ("(CR.PyC04.extentOf {0} lv wv ls ws)", False),
+                  "state.position.rotate_translate_local": ("(CR.PyC04.ShapeTag.rotatedRegion {1})", False),
+                  "np.arctan": ("(arctanf {0})", False), "np.cos": ("(cosf {0})", False), "np.sin": ("(sinf {0})", False),
+                  "np.abs": ("(CR.PyC04.absR {0})", False), "np.array": ("(0 : Rat)", False),
+                  "Rectangle": ("(CR.Rigid.Shape.rect {0} {1} {2} {3})", False)},
+           names={"shape": "CR.PyC04.ShapeTag.shape"},
+           kwnames={"Rectangle": ["length", "width", "center", "orientation"]}, monadic=True,
+           doc="rectangle / polygon shape, orientation an AngleInterval [olo, ohi], position a rectangle / polygon region with "
+               "centre pc: (lv, wv) = _centered_extent(shape), (ls, ws) = _centered_extent(region turned by -psi_d), sc = shape.center"),
         # ------------------------------------------------------------------ C16
         T4("Interval_round", U, "__round__", "Interval", [(None, "rnd : Option Int → Rat → Rat"), ("self", "self : CR.Iv.I"), ("n", "n : Option Int")],
            "CR.Iv.I", attrs=dict(I), monadic=True,
